@@ -111,6 +111,18 @@ theorem C07_boundary_clean (a : Api) (op : Op) (ha : a.d.q.err = none) (h : ends
     cases c with
     | true => cases hh
     | false => exact decodeBody_clean a.d hh
+  | decodeCtxAt k =>
+    have hh : endsSequence (stepDecodeCtxAt k a.d).2.1 = true := h
+    show Clean (stepDecodeCtxAt k a.d).1
+    unfold stepDecodeCtxAt at hh ⊢
+    rw [ha] at hh ⊢
+    simp only at hh ⊢
+    unfold decodeBodyAt at hh ⊢
+    cases hr : headerOnce a.d with
+    | ok s1 => rw [hr] at hh; exact decodeTail_clean _ hh
+    | err e => rw [hr] at hh; cases hh
+    | panic => rw [hr] at hh; cases hh
+    | hang => rw [hr] at hh; cases hh
   | peekHeader =>
     have hh : endsSequence (stepPeekHeader a.d).2.1 = true := h
     unfold stepPeekHeader at hh
